@@ -8,15 +8,15 @@ package main
 
 import (
 	"bytes"
-	"net"
-	"time"
 	"encoding/binary"
 	"encoding/json"
 	"fmt"
 	"math/big"
+	"net"
 	"os"
 	"path/filepath"
 	"sort"
+	"time"
 
 	"github.com/glowlabs-org/gca-backend/glow"
 
@@ -572,7 +572,7 @@ func init() {
 		return c01RunJob(j), nil
 	})
 	checks["C01"] = func(tier string) int {
-		run := ev.NewRun("C01", tier, "exploration")
+		run := newRun("C01", tier, "exploration")
 		var jobs []interface{}
 		for _, rot := range []int{0, 1} {
 			for _, d := range []int{0, 431, 432, 433, 2016, 3599, 3600, 3601, 3999} {
@@ -609,7 +609,7 @@ func runJobCheck(run *ev.Run, kind string, jobs []interface{}, rule string) int 
 			continue
 		}
 		if r.Panic != "" {
-			run.Violation("panic/"+kind+"/"+firstLine(r.Panic), map[string]interface{}{"job": json.RawMessage(jb), "panic": tailStr(r.Panic, 6000)})
+			run.Violation("panic/"+kind+"/"+firstLine(r.Panic), map[string]interface{}{"job": json.RawMessage(jb), "panic": tailStr(r.Panic, 6000), "replay": mkReplay(kind, jobs[i])})
 			continue
 		}
 		if r.Err != "" {
@@ -641,7 +641,7 @@ func runJobCheck(run *ev.Run, kind string, jobs []interface{}, rule string) int 
 				run.NotExhaustive("harness error in job")
 				continue
 			}
-			run.Violation(v.Sig, map[string]interface{}{"job": json.RawMessage(jb), "detail": v.Detail})
+			run.Violation(v.Sig, map[string]interface{}{"job": json.RawMessage(jb), "detail": v.Detail, "replay": mkReplay(kind, jobs[i])})
 		}
 		for _, s := range rep.Samples {
 			run.Sample(s)
